@@ -1,4 +1,5 @@
 import SamplyModel.Lemmas.SampleTable
+import SamplyModel.Lemmas.SampleTableProfile
 /-!
 # C04 — serialized sample and counter tables are chronological and lossless
 
@@ -58,6 +59,27 @@ theorem C04_columns (ops : List Op) (th : Thread) (h : run ops = some th) :
   refine ⟨inv.times, inv.stacks, inv.weights, inv.cpus, ?_, ?_⟩
   · rw [inv.lastStack]; cases (logical ops).getLast? <;> rfl
   · rw [inv.lastZero]; cases (logical ops).getLast? <;> simp
+
+/-- **The spec without the merge rule.** On a history without merge calls the logical samples are literally the
+samples of the `add` calls, in call order: there `C04_lossless` says word for word that each entry keeps the time,
+stack, weight and CPU delta it was added with. (The meaning of a merge call — extend the previous zero-CPU sample,
+else append one with the previous stack — is the documented rule of `add_sample_same_stack_zero_cpu`, adopted as
+specification.) -/
+theorem C04_logical_without_merge (ops : List Op) (h : ∀ op ∈ ops, ∃ t s c w, op = .add t s c w) :
+    logical ops = ops.filterMap Op.addRow? := by
+  have gen : ∀ (ops : List Op) (rows : List LRow), (∀ op ∈ ops, ∃ t s c w, op = Op.add t s c w) →
+      logicalFrom rows ops = rows ++ ops.filterMap Op.addRow? := by
+    intro ops
+    induction ops with
+    | nil => intro rows _; simp [logicalFrom]
+    | cons op ops ih =>
+      intro rows h
+      obtain ⟨t, s, c, w, rfl⟩ := h op (by simp)
+      have := ih (rows ++ [⟨t, s, c / 1000, w⟩]) (fun o ho => h o (by simp [ho]))
+      simp only [logicalFrom, List.foldl_cons, logicalStep] at this ⊢
+      rw [this]
+      simp [Op.addRow?]
+  simpa [logical] using gen ops [] h
 
 /-- **No panic, except the stated `i32` overflow.** A history panics in the model iff some merge call would
 make the accumulated weight of a sample leave the `i32` range; in particular the `unwrap`s in
@@ -139,7 +161,11 @@ theorem C04_serialize_spec (ops : List Op) (hf : fits ops = true) :
   obtain ⟨o, ho, hspec⟩ := C04_spec ops th e idx hv
   exact ⟨th, o, e, by rw [hs, ho], hspec⟩
 
-/-! ### Counters (`add_counter_sample`; no merge call, no panic) -/
+/-! ### Counters (`add_counter_sample`; no merge call, no panic)
+
+Counter values are `f64` tokens (`STab.CVal`: integers, `-0.0`, any other bit pattern incl. fractions,
+subnormals, NaN, ±inf). `rowsC ops` are the samples as added; a JSON document shows a non-finite value as
+`null` (`CVal.json`), which is the one excluded point of "keeps the counter value it was added with". -/
 
 /-- Key invariant and stored columns of the counter table. -/
 theorem C04_counter_invariant (ops : List COp) :
@@ -152,12 +178,12 @@ theorem C04_counter_invariant (ops : List COp) :
   · intro t ht
     rw [inv.time, List.getLast?_map] at ht
     rw [inv.lastTs]
-    cases hl : (logicalC ops).getLast? with
+    cases hl : (rowsC ops).getLast? with
     | none => simp [hl] at ht
     | some r => simp [hl] at ht; simp [ht]
-  · rw [inv.time]; simp [logicalC]
-  · rw [inv.count]; simp [logicalC]
-  · rw [inv.number]; simp [logicalC]
+  · rw [inv.time]; simp [rowsC]
+  · rw [inv.count]; simp [rowsC]
+  · rw [inv.number]; simp [rowsC]
 
 theorem C04_counter_serialize_is_valid_permutation (ops : List COp) :
     ∃ idx, ValidIdx (runC ops).time idx ∧ (runC ops).serialize = (runC ops).serializeWith idx :=
@@ -170,37 +196,195 @@ theorem C04_counter_chronological (ops : List COp) (idx : List Nat) (hv : ValidI
   obtain ⟨rows', ds, _, hs, hp, hd, hr, he⟩ := cserializeWith_rows _ _ (runC_inv ops) idx hv
   exact ⟨_, _, he, hp, hd, hr, hs⟩
 
-/-- Lossless, for counters: one rearrangement of the calls supplies `count`, `number` and the times. -/
+/-- Lossless, for counters: one rearrangement `rows'` of the calls supplies `count`, `number` and the times;
+the value shown is the value added, except that a non-finite value is shown as `null`. -/
 theorem C04_counter_lossless (ops : List COp) (idx : List Nat) (hv : ValidIdx (runC ops).time idx) :
-    ∃ (o : COut) (rows' : List CRow), (runC ops).serializeWith idx = some o ∧ rows'.Perm (logicalC ops) ∧
-      o.count = rows'.map (·.value) ∧ o.number = rows'.map (·.n) ∧
+    ∃ (o : COut) (rows' : List CRow), (runC ops).serializeWith idx = some o ∧ rows'.Perm (rowsC ops) ∧
+      o.count = rows'.map (·.value.json) ∧ o.number = rows'.map (·.n) ∧
       runningSums 0 o.deltas = rows'.map (·.t) := by
   obtain ⟨rows', ds, hperm, _, _, _, hr, he⟩ := cserializeWith_rows _ _ (runC_inv ops) idx hv
   exact ⟨_, rows', he, hperm, rfl, rfl, hr⟩
 
+/-- … and when every added value is finite (any fraction, subnormal, `-0.0`, huge value), `count` shows exactly
+the values that were added. -/
+theorem C04_counter_lossless_finite (ops : List COp) (hfin : ∀ op ∈ ops, op.value.isFinite = true)
+    (idx : List Nat) (hv : ValidIdx (runC ops).time idx) :
+    ∃ (o : COut) (rows' : List CRow), (runC ops).serializeWith idx = some o ∧ rows'.Perm (rowsC ops) ∧
+      o.count = rows'.map (·.value) ∧ o.number = rows'.map (·.n) ∧
+      runningSums 0 o.deltas = rows'.map (·.t) := by
+  obtain ⟨o, rows', he, hperm, hc, hn, hr⟩ := C04_counter_lossless ops idx hv
+  refine ⟨o, rows', he, hperm, ?_, hn, hr⟩
+  rw [hc]
+  apply List.map_congr_left
+  intro r hr'
+  have : r ∈ rowsC ops := hperm.mem_iff.1 hr'
+  simp only [rowsC, List.mem_map] at this
+  obtain ⟨op, hop, rfl⟩ := this
+  exact CVal.json_of_finite _ (hfin op hop)
+
 /-- Totals and the judged spec, for counters. -/
 theorem C04_counter_spec (ops : List COp) (idx : List Nat) (hv : ValidIdx (runC ops).time idx) :
     ∃ o, (runC ops).serializeWith idx = some o ∧
-      o.count.sum = (ops.map (·.value)).sum ∧ o.number.sum = (ops.map (·.n)).sum ∧
+      (o.count.map CVal.intPart).sum = (ops.map (·.value.intPart)).sum ∧
+      o.number.sum = (ops.map (·.n)).sum ∧
       specCB ops o.obs = true := by
   obtain ⟨rows', ds, hperm, hs, _, _, hr, he⟩ := cserializeWith_rows _ _ (runC_inv ops) idx hv
   have hlen : ds.length = rows'.length := by
     have := congrArg List.length hr
     simpa [runningSums_length] using this
-  have hw : (rows'.map (·.value)).sum = (ops.map (·.value)).sum := by
-    have := perm_sum_int (hperm.map (·.value))
-    simpa [logicalC, Function.comp_def] using this
+  have hw : ((rows'.map (·.value.json)).map CVal.intPart).sum = (ops.map (·.value.intPart)).sum := by
+    have := perm_sum_int (hperm.map (·.value.intPart))
+    simpa [rowsC, Function.comp_def, CVal.intPart_json] using this
   have hc : (rows'.map (·.n)).sum = (ops.map (·.n)).sum := by
     have := (hperm.map (·.n)).sum_nat
-    simpa [logicalC, Function.comp_def] using this
+    simpa [rowsC, Function.comp_def] using this
+  have hperm' : (rows'.map CRow.json).Perm (logicalC ops) := hperm.map CRow.json
+  have hrows : mkCRows (rows'.map (·.t)) (rows'.map (·.value.json)) (rows'.map (·.n)) = rows'.map CRow.json := by
+    have := mkCRows_map (rows'.map CRow.json)
+    simpa [CRow.json, Function.comp_def] using this
   refine ⟨_, he, hw, hc, ?_⟩
   have hmap : List.map Int.toNat (List.map Int.ofNat ds) = ds := toNat_ofNat_map ds
-  simp only [specCB, COut.obs, specCNat, hmap, hr, mkCRows_map, List.length_map, beq_self_eq_true,
+  simp only [specCB, COut.obs, specCNat, hmap, hr, hrows, List.length_map, beq_self_eq_true,
     Bool.and_self, Bool.true_and, Bool.and_eq_true, List.all_eq_true, List.mem_map,
     decide_eq_true_eq, beq_iff_eq]
-  refine ⟨?_, ⟨⟨⟨(nondecreasing_iff _).2 hs, List.isPerm_iff.2 hperm⟩, hw⟩, hc⟩⟩
+  refine ⟨?_, ⟨⟨⟨(nondecreasing_iff _).2 hs, List.isPerm_iff.2 hperm'⟩, hw⟩, hc⟩⟩
   rintro _ ⟨d, _, rfl⟩
   exact Int.natCast_nonneg d
+
+/-! ### Profile level: several threads and counters, the neighbouring `Thread` calls, serialization in the middle
+
+Model: `SamplyModel/Model/SampleTableProfile.lean`. `PState.init procs nc` is a profile with one thread per entry
+of `procs` (the process it belongs to) and `nc` counters; a history is a `List POp` (`sample i (add | merge)`,
+`alloc`, `marker`, `wtype`, `counter j`, `ser`); `runPFrom` runs it (`none` = a call panicked), `snapsFrom` also
+collects what every `ser` call and a final serialization show. `threadOps i ops` / `counterOps j ops` are the calls
+a single thread / counter received; `prefixAt k ops` the calls before the `k`-th `ser`. -/
+open STabP
+
+/-- **Frame.** After any history on any profile, thread `i` holds exactly what its own `add` / `merge` calls produce
+on a fresh thread (so every single-thread theorem above applies to it), and counter `j` what its own counter calls
+produce: calls on other threads, allocation samples (which land in the first thread of the process), markers,
+weight-type changes, counter samples and serializations in between touch neither the sample table nor
+`last_sample_stack` / `last_sample_was_zero_cpu`. -/
+theorem C04_profile_frame (procs : List Nat) (nc : Nat) (ops : List POp) (st : PState)
+    (h : runPFrom (PState.init procs nc) ops = some st) :
+    (∀ (i p : Nat), procs[i]? = some p →
+      ∃ pt, st.threads[i]? = some pt ∧ pt.proc = p ∧ run (threadOps i ops) = some pt.core) ∧
+    (∀ j, j < nc → st.counters[j]? = some (runC (counterOps j ops))) := by
+  constructor
+  · intro i p hp
+    have hi : (PState.init procs nc).threads[i]? = some (PThread.new p) := by
+      simp [PState.init, hp]
+    obtain ⟨pt, h1, h2, h3⟩ := runPFrom_thread ops _ st h i _ hi
+    exact ⟨pt, h1, h2, h3⟩
+  · intro j hj
+    have hc : (PState.init procs nc).counters[j]? = some CounterSamples.new := by
+      simp [PState.init, hj]
+    exact runPFrom_counter ops _ st h j _ hc
+
+/-- **No panic at profile level, except the stated overflow.** A history whose handles belong to the profile
+panics iff the `add` / `merge` calls of one of its threads make a merged weight leave `i32`: no `unwrap`, no index,
+none of the other calls panics. -/
+theorem C04_profile_panic_iff (procs : List Nat) (nc : Nat) (ops : List POp)
+    (hw : WellAddr procs.length nc ops) :
+    runPFrom (PState.init procs nc) ops = none ↔ ∃ i, i < procs.length ∧ fits (threadOps i ops) = false := by
+  constructor
+  · intro h
+    have hw' : WellAddr (PState.init procs nc).threads.length (PState.init procs nc).counters.length ops := by
+      simpa [PState.init] using hw
+    obtain ⟨i, th, hi, hr⟩ := runPFrom_none ops _ hw' h
+    simp only [PState.init, List.getElem?_map] at hi
+    cases hp : procs[i]? with
+    | none => simp [hp] at hi
+    | some p =>
+      simp only [hp, Option.map_some, Option.some.injEq] at hi
+      subst hi
+      have hlt : i < procs.length := by
+        rcases Nat.lt_or_ge i procs.length with h' | h'
+        · exact h'
+        · rw [List.getElem?_eq_none h'] at hp; cases hp
+      exact ⟨i, hlt, (C04_panic_iff_weight_overflow _).1 hr⟩
+  · rintro ⟨i, hlt, hf⟩
+    have hi : (PState.init procs nc).threads[i]? = some (PThread.new procs[i]) := by
+      simp [PState.init, List.getElem?_eq_getElem hlt]
+    exact runPFrom_some_thread ops _ i _ hi ((C04_panic_iff_weight_overflow _).2 hf)
+
+/-- **Serializing is an observation.** The `ser` calls of a history do not change where it ends. -/
+theorem C04_ser_transparent (st : PState) (ops : List POp) :
+    runPFrom st ops = runPFrom st (ops.filter fun op => !op.isSer) := by
+  induction ops generalizing st with
+  | nil => rfl
+  | cons op ops ih =>
+    by_cases hser : op.isSer = true
+    · simp [runPFrom, step_ser_of_isSer hser, hser, ih]
+    · simp only [Bool.not_eq_true] at hser
+      simp only [List.filter_cons, hser, Bool.not_false, if_true, runPFrom]
+      cases st.step op with
+      | none => rfl
+      | some st' => exact ih st'
+
+/-- **Every snapshot is chronological and lossless for what was added before it.** On any profile and any
+well-addressed history that does not overflow an `i32` weight: every `ser` call and the final serialization
+succeed (no panic while serializing, although the history goes on and tables are re-serialized later), and in the
+`k`-th snapshot every thread's sample table satisfies the judged spec `specB` for exactly the `add` / `merge`
+calls that thread received before the `k`-th `ser`, and every counter's table `specCB` for its counter calls
+before it. -/
+theorem C04_snapshots (procs : List Nat) (nc : Nat) (ops : List POp) (hw : WellAddr procs.length nc ops)
+    (hf : ∀ i, i < procs.length → fits (threadOps i ops) = true) :
+    ∃ snaps, snapsFrom (PState.init procs nc) ops = some snaps ∧ snaps.length = serCount ops + 1 ∧
+      ∀ (k : Nat) (s : PSnap), snaps[k]? = some s →
+        (∀ i, i < procs.length → ∃ ts, s.threads[i]? = some ts ∧
+          specB (threadOps i (prefixAt k ops)) ts.samples.obs = true) ∧
+        (∀ j, j < nc → ∃ co, s.counters[j]? = some co ∧
+          specCB (counterOps j (prefixAt k ops)) co.obs = true) := by
+  cases hr : runPFrom (PState.init procs nc) ops with
+  | none =>
+    obtain ⟨i, hlt, hfi⟩ := (C04_profile_panic_iff procs nc ops hw).1 hr
+    rw [hf i hlt] at hfi; cases hfi
+  | some st' =>
+    obtain ⟨snaps, hs⟩ := snapsFrom_total ops _ st' (good_init procs nc) hr
+    obtain ⟨hlen, hk⟩ := snapsFrom_spec ops _ snaps hs
+    refine ⟨snaps, hs, hlen, ?_⟩
+    intro k s hks
+    obtain ⟨stk, hrun, hser⟩ := hk k s hks
+    obtain ⟨fr1, fr2⟩ := C04_profile_frame procs nc _ stk hrun
+    obtain ⟨sl1, sl2, _, _⟩ := serialize_slots hser
+    constructor
+    · intro i hlt
+      obtain ⟨pt, hpt, _, hrun_i⟩ := fr1 i procs[i] (List.getElem?_eq_getElem hlt)
+      obtain ⟨ts, hts, hpts⟩ := sl1 i pt hpt
+      refine ⟨ts, hts, ?_⟩
+      obtain ⟨idx, hv, he⟩ := C04_serialize_is_valid_permutation _ _ hrun_i
+      obtain ⟨o, ho, hspec⟩ := C04_spec _ _ hrun_i idx hv
+      simp only [PThread.serialize, he, ho, Option.map_some, Option.some.injEq] at hpts
+      subst hpts
+      exact hspec
+    · intro j hlt
+      have hc := fr2 j hlt
+      obtain ⟨co, hco, hcs⟩ := sl2 j _ hc
+      refine ⟨co, hco, ?_⟩
+      obtain ⟨idx, hv, he⟩ := C04_counter_serialize_is_valid_permutation (counterOps j (prefixAt k ops))
+      obtain ⟨o, ho, _, _, hspec⟩ := C04_counter_spec _ idx hv
+      rw [he, ho] at hcs
+      cases hcs
+      exact hspec
+
+/-- non-vacuity at profile level: two threads of one process interleaved, an allocation sample named for thread 1
+(lands in thread 0, between thread 0's `add` and `merge`), a marker, a `ser` in the middle, a `-0.0` counter value -/
+def C04_profileHistory : List POp :=
+  [.sample 0 (.add 10 (some 0) 5000 1), .alloc 1 11 (some 2) 4096 64, .sample 1 (.add 5 none 0 2), .ser,
+   .sample 0 (.merge 12 4), .marker 0, .counter 1 ⟨3, .negZero, 1⟩, .sample 1 (.merge 7 8)]
+
+example : WellAddr 3 2 C04_profileHistory := by
+  intro op hop; revert op hop; decide
+
+example : (∀ i, i < 3 → fits (threadOps i C04_profileHistory) = true) := by decide
+
+example : (snapsFrom (PState.init [0, 0, 1] 2) C04_profileHistory).map (fun snaps => snaps.map fun s =>
+      (s.threads.map (·.samples.weight), s.threads.map (·.samples.stack), s.threads.map (·.allocs.isSome),
+       s.counters.map (·.count)))
+    = some [([[1], [2], []], [[some 0], [none], []], [true, false, false], [[], []]),
+            ([[1, 4], [10], []], [[some 0, some 0], [none], []], [true, false, false], [[], [.negZero]])] := by
+  rfl
 
 /-! ### The defect repaired by `cfcb4a41` -/
 
@@ -260,6 +444,12 @@ example : fits [.add 1 none 0 2147483647, .merge 2 1] = false ∧
     run [.add 1 none 0 2147483647, .merge 2 1] = none := by decide
 
 /-- counters: inversion and tie -/
-example : ((runC [⟨5, 1, 1⟩, ⟨3, -2, 0⟩, ⟨5, 4, 2⟩]).isSorted,
-           (runC [⟨5, 1, 1⟩, ⟨3, -2, 0⟩, ⟨5, 4, 2⟩]).serializeWith [1, 2, 0])
-    = (false, some ⟨[-2, 4, 1], [0, 2, 1], [3, 2, 0]⟩) := by decide
+example : ((runC [⟨5, .int 1, 1⟩, ⟨3, .int (-2), 0⟩, ⟨5, .int 4, 2⟩]).isSorted,
+           (runC [⟨5, .int 1, 1⟩, ⟨3, .int (-2), 0⟩, ⟨5, .int 4, 2⟩]).serializeWith [1, 2, 0])
+    = (false, some ⟨[.int (-2), .int 4, .int 1], [0, 2, 1], [3, 2, 0]⟩) := by decide
+
+/-- counters: a fraction (0.5 = 0x3fe0000000000000), `-0.0`, a NaN and `+inf` — the finite ones are kept as
+they are, the non-finite ones are shown as `null` -/
+example : (runC [⟨5, .bits 0x3fe0000000000000, 1⟩, ⟨3, .negZero, 0⟩, ⟨5, .bits 0x7ff8000000000000, 2⟩,
+                 ⟨1, .bits 0x7ff0000000000000, 3⟩]).serializeWith [3, 1, 0, 2]
+    = some ⟨[.null, .negZero, .bits 0x3fe0000000000000, .null], [3, 0, 1, 2], [1, 2, 2, 0]⟩ := by decide
